@@ -1,6 +1,8 @@
 /-
-  C05, part 1 — the simplified form (`Graph.asdict_simplified`, Model `Graph.asdictSimplified`):
-  the search for symmetric migration groups and the field-level round trips.
+  C05 — the simplified form (`Graph.asdict_simplified`, Model `Graph.asdictSimplified`) is a
+  valid model that resolves back to the same graph.  Sections A–D: the search for symmetric
+  migration groups and the field-level round trips; section E: the property itself
+  (`simplify_resolves` and its corollaries).
 
   * `Spec.expandAll` gives a simplified migration list its meaning: a symmetric record stands
     for one asymmetric record per ordered pair of its demes (`Spec.expandS`).
@@ -9,9 +11,10 @@
     `Epoch.simplified` / `Deme.simplified` (`Spec.epochSimplified_eq`, `Spec.demeSimplified_eq`).
 
   The final assembly `validGraph g → resolve (asdictSimplified g) = .ok g'` (with `g'` equal to
-  `g` up to the order of migrations) is built on these lemmas in a later stage.
+  `g` up to the order of migrations, and `metadata` passed through `coerce_types` exactly as in
+  `Graph.asdict`, see C06) is section E.
 -/
-import DemesVerif.Proofs.SimplifyResolve
+import DemesVerif.Proofs.SimplifyAssemble
 import DemesVerif.Proofs.SimplifyExamples
 namespace Demes.Theorems
 open Demes Demes.Spec Demes.Obj
@@ -162,6 +165,81 @@ theorem resolveMigrations_simplified (g g0 : Graph) (h0 : v0 g = true) (h1 : v1 
           (resolveMigration []) g0) = .ok { g0 with migrations := ms } :=
   Proofs.C05.resolveMigrations_simplified g g0 h0 h1 h6 h8 h9 hdm hix hm0
 
+/-! ### E. the property -/
+
+/-- `_check_migration_rates` and the clauses V8, V9, V10 do not depend on the order in which the
+migrations are listed. -/
+theorem valid_migrations_perm (g : Graph) (ms : List Migration) (hp : ms.Perm g.migrations) :
+    v8 { g with migrations := ms } = v8 g ∧ v9 { g with migrations := ms } = v9 g
+      ∧ v10 { g with migrations := ms } = v10 g :=
+  ⟨Proofs.C05.v8_perm hp, Proofs.C05.v9_perm hp, Proofs.C05.v10_perm hp⟩
+
+/-- C05 — for every valid graph, `Graph.fromdict` accepts the simplified dictionary and returns
+exactly the original fully-resolved graph, except that
+ * the migrations are listed in a possibly different order (`ms` is a permutation of
+   `g.migrations`: the same migration records — source, dest, rate and both time bounds — as a
+   multiset; symmetric groups come first), and
+ * `metadata` has gone through `coerce_types` (`coerceO`: a `bool` becomes an `int`), exactly as
+   for the fully-resolved dictionary (C06); with `bool`-free metadata it is unchanged
+   (`simplify_resolves_plain`).
+Demes (with every epoch's size function), pulses, name index and the header come back
+unchanged.  Fields omitted by the simplified form (empty description / doi / metadata, no
+migrations, no pulses, inferable start times, proportions, end sizes, size functions, zero
+rates, implied migration bounds) are all re-inferred to their original values. -/
+theorem simplify_resolves (g : Graph) (hv : validGraph g = true) :
+    ∃ ms : List Migration, ms.Perm g.migrations ∧
+      resolve (Graph.asdictSimplified g)
+        = .ok { g with migrations := ms, metadata := coerceO g.metadata } :=
+  Proofs.C05.simplify_resolves g hv
+
+/-- the same, clause by clause, and naming the order of the migrations: that of
+`expandAll (simplifyMigrations g)` -/
+theorem simplify_resolves_of_clauses (g : Graph) (h0 : v0 g = true) (h1 : v1 g = true) (h2 : v2 g = true)
+    (h3 : v3 g = true) (h4 : v4 g = true) (h5 : v5 g = true) (h6 : v6 g = true) (h8 : v8 g = true)
+    (h9 : v9 g = true) (h10 : v10 g = true) (h11 : v11 g = true) (h12 : v12 g = true)
+    (h13 : v13 g = true) :
+    ∃ ms : List Migration, ms.Perm g.migrations
+      ∧ ms.map (stripBounds g) = expandAll (simplifyMigrations g)
+      ∧ resolve (Graph.asdictSimplified g)
+          = .ok { g with migrations := ms, metadata := coerceO g.metadata } :=
+  Proofs.C05.simplify_resolves_of_clauses g h0 h1 h2 h3 h4 h5 h6 h8 h9 h10 h11 h12 h13
+
+/-- with `bool`-free metadata the only difference is the order of the migrations -/
+theorem simplify_resolves_plain (g : Graph) (hv : validGraph g = true)
+    (hm : Value.plainO g.metadata = true) :
+    ∃ ms : List Migration, ms.Perm g.migrations ∧
+      resolve (Graph.asdictSimplified g) = .ok { g with migrations := ms } :=
+  Proofs.C05.simplify_resolves_plain g hv hm
+
+/-- the simplified form of a valid graph is an acceptable Demes document -/
+theorem simplify_accepted (g : Graph) (hv : validGraph g = true) :
+    (resolve (Graph.asdictSimplified g)).toOption.isSome = true :=
+  Proofs.C05.simplify_accepted g hv
+
+/-- … and what it resolves to is again a valid fully-resolved model (by C01) -/
+theorem simplify_resolves_valid (g : Graph) (hv : validGraph g = true) :
+    ∃ g', resolve (Graph.asdictSimplified g) = .ok g' ∧ validGraph g' = true :=
+  Proofs.C05.simplify_resolves_valid g hv
+
+/-- the resolved graph has the same demes (hence every epoch's start/end time, sizes and size
+function), pulses, header fields and name index, and the same migrations as a multiset — each
+migration record with its original `start_time` and `end_time` -/
+theorem simplify_same_model (g : Graph) (hv : validGraph g = true) :
+    ∃ g', resolve (Graph.asdictSimplified g) = .ok g'
+      ∧ g'.demes = g.demes ∧ g'.pulses = g.pulses
+      ∧ g'.description = g.description ∧ g'.timeUnits = g.timeUnits
+      ∧ g'.generationTime = g.generationTime ∧ g'.doi = g.doi
+      ∧ g'.metadata = coerceO g.metadata ∧ g'.index = g.index
+      ∧ g'.migrations.Perm g.migrations :=
+  Proofs.C05.simplify_same_model g hv
+
+/-- the simplified and the fully-resolved dictionary resolve to the same model, up to the order
+of the migrations -/
+theorem simplify_agrees_with_asdict (g : Graph) (hv : validGraph g = true) :
+    ∃ g₁ g₂, resolve (Graph.asdictSimplified g) = .ok g₁ ∧ resolve (Graph.asdict g) = .ok g₂
+      ∧ g₁.migrations.Perm g₂.migrations ∧ g₁ = { g₂ with migrations := g₁.migrations } :=
+  Proofs.C05.simplify_agrees_with_asdict g hv
+
 /-! ### non-vacuity -/
 
 section
@@ -265,6 +343,38 @@ example : ((((simplifyMigrations partial4).1.map smigObj ++ (simplifyMigrations 
 -- the graph (field by field; migrations up to order)
 example : roundTripsSimplified island3 = true := by decide +kernel
 example : roundTripsSimplified partial4 = true := by decide +kernel
+
+-- `simplify_resolves`: on `partial4` the migrations do come back in a different order
+example : (resolve partial4.asdictSimplified).toOption.map
+      (fun r => r.migrations.isPerm partial4.migrations && r.migrations != partial4.migrations
+        && r.demes == partial4.demes && r.pulses == partial4.pulses)
+    = some true := by decide +kernel
+
+/-- description, doi and a metadata mapping holding a `bool` (which `coerce_types` turns into
+`1`), two pulses, no migrations -/
+def metaGraph : Graph :=
+  { Proofs.exampleGraph with
+    migrations := [],
+    description := "with metadata", doi := ["10.1000/x"],
+    metadata := [("flag", .bool true), ("note", .str "n"), ("nested", .obj [("k", .list [.bool false])])],
+    pulses := [{ sources := ["A"], dest := "B", time := 30, proportions := [1/10] },
+               { sources := ["A"], dest := "B", time := 20, proportions := [1/5] }] }
+example : validGraph metaGraph = true := by decide +kernel
+-- the top-level keys: `migrations` is omitted, `metadata` and `pulses` are present
+example : (simpTopObj metaGraph).map (·.1)
+    = ["description", "time_units", "generation_time", "doi", "metadata", "demes", "pulses"] := by
+  decide +kernel
+example : (simpTopObj splitGraph).map (·.1) = ["time_units", "generation_time", "demes"] := by
+  decide +kernel
+-- the round trip: everything but metadata is unchanged, the `bool`s came back as numbers
+open Proofs.Asdict in
+example : (resolve metaGraph.asdictSimplified).toOption.map
+      (fun r => decide (r.metadata =
+          [("flag", .num (.fin 1)), ("note", .str "n"), ("nested", .obj [("k", .list [.num (.fin 0)])])])
+        && r.demes == metaGraph.demes && r.pulses == metaGraph.pulses && r.migrations == []
+        && r.description == "with metadata" && r.doi == ["10.1000/x"] && r.index == metaGraph.index
+        && r.timeUnits == "generations" && r.generationTime == 1)
+    = some true := by decide +kernel
 
 end
 
